@@ -9,7 +9,11 @@ sys.path.insert(0, HERE)
 import cxx2c
 
 REPO = os.environ.get('VERIF_REPO', '/repo')
-WORK = os.path.join(VERIF, '.work')
+WORK = os.path.join(VERIF, '.work', 'dev' if os.environ.get('VERIF_KEEP') else 'p%d' % os.getpid())
+BINCACHE = os.path.join(VERIF, '.work', 'bin')
+import atexit
+if not os.environ.get('VERIF_KEEP'):
+    atexit.register(lambda: shutil.rmtree(WORK, ignore_errors=True))
 CACHE = os.path.join(VERIF, '.cache')
 MEM_KB = 14 * 1024 * 1024
 
@@ -58,7 +62,7 @@ def gen_struct(repo, sdef, rw):
                 continue
             cty = sdef.get('member_types', {}).get(nm)
             if cty is None:
-                cty = rw.map_type(ty)
+                cty = re.sub(r'^const\s+', '', rw.map_type(ty))
                 if re.search(r'[<>:]', cty):
                     raise cxx2c.ExtractError('struct %s: no C type for member %s of type %r' % (sdef['cname'], nm, ty))
             lines.append('  %s %s%s;' % (cty, nm, dim))
@@ -196,7 +200,7 @@ def classify(prop_name, desc):
     return 'other', cls
 
 
-def run_one(unit, run, exinfo, tier, want_trace=False, nocache=False):
+def run_one(unit, run, exinfo, tier, want_trace=False, nocache=False, only_props=None):
     """execute one verification run; returns result dict"""
     wd = exinfo['workdir']
     rid = run['id']
@@ -240,7 +244,7 @@ def run_one(unit, run, exinfo, tier, want_trace=False, nocache=False):
     gi += run.get('gi_flags', [])
     key = hashlib.sha256()
     key.update(pp.encode())
-    key.update(json.dumps([entry, flags, gi, tool_versions(), want_trace, SELF_HASH], sort_keys=True).encode())
+    key.update(json.dumps([entry, flags, gi, tool_versions(), want_trace, only_props, SELF_HASH], sort_keys=True).encode())
     keyhex = key.hexdigest()
     cfile = os.path.join(CACHE, keyhex + '.json')
     if not nocache and os.path.exists(cfile):
@@ -251,7 +255,9 @@ def run_one(unit, run, exinfo, tier, want_trace=False, nocache=False):
                backend='dfcc' if run.get('enforce') else 'harness', solver=solver or 'minisat(default)', flags=flags, gi=gi,
                props=run['props'], tier=run.get('tier', 'quick'), key=keyhex, cached=False,
                bounded=run.get('bounded'), status='ok', obligations=[])
-    tmo = run.get('timeout', 300 if tier == 'quick' else 1800)
+    tmo = run.get('timeout', 600 if tier == 'quick' else 1800)
+    if os.environ.get('VERIF_TIMEOUT'):
+        tmo = int(os.environ['VERIF_TIMEOUT'])
     a = os.path.join(rdir, 'a.gb')
     b = os.path.join(rdir, 'b.gb')
     rc, out, err, dt = sh(['goto-cc'] + defs + incs + ['--function', entry, main_c, '-o', a], 120)
@@ -268,6 +274,8 @@ def run_one(unit, run, exinfo, tier, want_trace=False, nocache=False):
             return res
         binf = b
     cmd = ['cbmc', binf, '--json-ui', '--drop-unused-functions'] + flags + (['--trace'] if want_trace else [])
+    for pid_ in (only_props or []):
+        cmd += ['--property', pid_]
     if not gi:
         cmd += ['--function', entry]
     rc, out, err, t_cbmc = sh(cmd, tmo)
